@@ -891,6 +891,11 @@ func parseShapes(csv *csv.File) []Shape {
 			continue
 		}
 
+		if shapePtLat == nil || shapePtLon == nil || shapePtSequence == nil {
+			log.Printf("Skipping shape point because of an invalid latitude, longitude or sequence")
+			continue
+		}
+
 		shapeIDToRowData[shapeID] = append(shapeIDToRowData[shapeID], ShapeRow{
 			ShapePtLat:        *shapePtLat,
 			ShapePtLon:        *shapePtLon,
